@@ -62,7 +62,8 @@ func FormatCSVValue(builder *strings.Builder, value octosql.Value) {
 	case octosql.TypeIDDuration:
 		builder.WriteString(fmt.Sprint(value.Duration))
 	default:
-		panic("invalid value type to print in CSV: " + value.TypeID.String())
+		// Lists, objects and tuples have no CSV representation of their own, print their textual form.
+		builder.WriteString(value.String())
 	}
 }
 
